@@ -4,6 +4,7 @@ package main
 
 import (
 	"fmt"
+	"os"
 	"sort"
 	"strings"
 	"time"
@@ -159,6 +160,26 @@ func (h *history) raisedBefore(d *dimension, x int64) bool {
 	return false
 }
 
+// lastChangeRaced reports whether the last policy operation that completed
+// before x overlapped in time with a request of the same token.
+func (h *history) lastChangeRaced(x int64, reqs []*reqRec) bool {
+	var last *opRec
+	for i := range h.ops {
+		if h.ops[i].e <= x {
+			last = &h.ops[i]
+		}
+	}
+	if last == nil {
+		return false
+	}
+	for _, r := range reqs {
+		if r.s < last.e && r.e > last.s {
+			return true
+		}
+	}
+	return false
+}
+
 type judgeCtx struct {
 	w   *world
 	out *simkit.Outcome
@@ -217,7 +238,8 @@ func judge(w *world, out *simkit.Outcome) {
 		for i := 1; i < len(h.ops); i++ {
 			if h.ops[i].s < h.ops[i-1].e {
 				// plans never contain two concurrent policy operations on one token
-				panic(fmt.Sprintf("harness: overlapping policy operations on token %d", tok))
+				fmt.Fprintf(os.Stderr, "HARNESS-ERROR C28: overlapping policy operations on token %d\n", tok)
+				os.Exit(2)
 			}
 		}
 		var reqs, admits []*reqRec
@@ -232,7 +254,7 @@ func judge(w *world, out *simkit.Outcome) {
 			}
 		}
 		for di := range dims {
-			judged += j.judgeAdmits(tok, &dims[di], h, admits)
+			judged += j.judgeAdmits(tok, &dims[di], h, admits, reqs)
 			j.judgeRejects(tok, &dims[di], h, reqs)
 		}
 	}
@@ -242,7 +264,7 @@ func judge(w *world, out *simkit.Outcome) {
 }
 
 // judgeAdmits checks clauses (1), (2) and the lowering direction of (4).
-func (j *judgeCtx) judgeAdmits(tok int64, d *dimension, h *history, admits []*reqRec) int64 {
+func (j *judgeCtx) judgeAdmits(tok int64, d *dimension, h *history, admits, reqs []*reqRec) int64 {
 	judged := int64(0)
 	for _, t := range admits {
 		lim, ok := h.at(t.s, t.e)
@@ -318,8 +340,10 @@ func (j *judgeCtx) judgeAdmits(tok int64, d *dimension, h *history, admits []*re
 			suffix = "after-policy-delete"
 		case j.wallStepIn(from, t.e):
 			suffix = "after-wall-clock-step"
-		case has && intLimit != L:
-			suffix = "stale-internal-limit"
+		case has && intLimit != L && h.lastChangeRaced(t.s, reqs):
+			// the limiter object holds another limit than the policy, and the
+			// policy change that set the limit ran concurrently with a request
+			suffix = "stale-limit-after-update-concurrent-with-request"
 		default:
 			if d.rate && slot > 0 && slot < d.w {
 				s2, a2, _, _ := count(d.w - slot)
@@ -441,8 +465,8 @@ func (j *judgeCtx) judgeRejects(tok int64, d *dimension, h *history, reqs []*req
 		switch {
 		case h.raisedBefore(d, t.s):
 			rule := "C28.limit-change.raise-not-applied." + d.name
-			if has && intLimit != L {
-				rule += ".stale-internal-limit"
+			if has && intLimit != L && h.lastChangeRaced(t.s, reqs) {
+				rule += ".stale-limit-after-update-concurrent-with-request"
 			}
 			j.out.Violate(rule,
 				"token %d: request at t=[%s,%s] rejected by the %s limit although the limit in force since the last completed policy change is %d and at most %d earlier requests can count against it; limiter holds limit=%d (exists=%v)",
